@@ -69,6 +69,25 @@ NEEDS = {
     "C14-3": "a single-quoted string literal containing an escaped single quote ('it\\'s'): the escape is replaced by a double quote",
     "C15-3": "a variable interpolated as the last part of a longer query (`Properties.%k`) with `empty`/`!empty` and an empty list/map/string value: treated like the bare-variable exception",
     "C18-3": "a function argument resolving to several values where a skipped one (non-string in a mixed list, unresolved member) precedes others: results after it are dropped (map_while)",
+    "C01-4": "a nested `when` block (not a rule-level guard) whose condition evaluates to SKIP (all its lines depend on empty filtered selections): the body is evaluated as if the condition had passed",
+    "C02-4": "same change as C01-4 (`when` block with a SKIP condition evaluates its body): the record shows WhenCondition SKIP next to an evaluated body",
+    "C03-4": "prefix not together with an operator-level negation on a unary operator (`not X !exists`, `not X !is_string`, `!X !empty`): the two negations no longer cancel",
+    "C04-4": "inside a query block, an `or` line with one alternative that raises an evaluation error for an element (`empty` on a number) and one that PASSes: the error is swallowed as FAIL, so the order of alternatives decides",
+    "C05-4": "`test -o junit` with an unmet expectation while colouring is on (CLICOLOR_FORCE=1 or stdout a terminal): ANSI codes in the <failure> text",
+    "C06-4": "`test` with a PASS or FAIL expectation for a rule whose every definition is SKIP: counted as met, exit 0 instead of 7",
+    "C07-4": "`--structured -o junit` with `<` or `&` in a custom message or in a data string of a failing comparison: failure text written unescaped, XML not well-formed",
+    "C08-4": "`validate --structured -o junit` on a rules file with the `.ruleset` extension whose file-level (default) rule FAILs: index out of bounds in the JUnit reporter",
+    "C09-4": "a rule referenced by name from a rule defined before it: the top-level loop takes the cached status and records nothing, the rule is in none of the three lists",
+    "C10-4": "a YAML block scalar (|- / >-) whose single line looks like a number, boolean or null: loaded as Int/Bool/Null, the reported value is not the document's string",
+    "C11-4": "block YAML loaded by `validate` whose last node is a `|` / `>` block scalar (final line feed trimmed away) or whose every line is indented (parse error)",
+    "C12-4": "`--structured -o json|yaml` with two rules files defining a same-named rule that is SKIP for one and PASS/FAIL for the other on a data file: the SKIP entry vanishes from not_applicable",
+    "C13-4": "`<=` / `>=` on equal operands of an unordered type (bool, map, string vs regex, number vs range): PASS instead of not comparable",
+    "C14-4": "a type block over >= 2 resources of its type where the body is SKIP for one and PASS for another: the type block says SKIP, the written-out filter form PASS",
+    "C15-4": "more than 64 evaluations of parameterised calls in one process (leaked nesting-depth counter; re-based, see REBASED.md)",
+    "C16-4": "plain `test` with several test-data files for one rules file (-t <dir> or --dir) where a file with an unmet expectation is followed by one without: exit 0 while json/yaml/junit exit 7",
+    "C17-4": "same change as C12-3 / C07-3 (structured mode merges --input-parameters into the first data file only)",
+    "C18-4": "url_decode() with a string literal argument (in place or via a literal-bound variable): treated as an unsupported value and skipped",
+    "C19-4": "`rulegen -t T -o F` when F already exists and is longer than the new rules: the file is not truncated, stale text follows the rules",
 }
 
 
